@@ -39,7 +39,8 @@ def rand_settings(rnd):
                 enter=rnd.choice([None, None, "M117 entering\nM106 S0 ; fan off\n"]),
                 exit=rnd.choice([None, None, "M117 leaving\n\n  M106 S255\n"]),
                 ext=dict(DEFAULT_EXT, **rnd.choice([{}, {"M900": "merge"}, {"M220": "first", "G4": "last"}])),
-                at=[list(a) for a in DEFAULT_AT])
+                at=[list(a) for a in DEFAULT_AT], debug=rnd.random() < 0.3,
+                logmode=rnd.choice(["octoprint", "octoprint", "dedicated", "both"]))
 
 
 def gen_history(rnd, regs, settings, nblocks=None):
@@ -113,6 +114,8 @@ def gen_history(rnd, regs, settings, nblocks=None):
                 settings["exit"] = rnd.choice([None, "M117 leaving\n", "M106 S255\n"])
             elif q < 0.65:
                 settings["g90e"] = not settings.get("g90e")
+            elif q < 0.75:
+                settings["logmode"] = rnd.choice(["octoprint", "dedicated", "both"])
             steps.append(["settings", dict(settings)])
     return steps
 
